@@ -641,7 +641,7 @@ pub fn run() {
     c.assume("conversion harness circuit <-> quizx circuit (gen::circuit::{to_quizx, from_quizx}) is a faithful one-to-one mapping of gate kinds, qubit arguments and phases");
     c.assume("'advertised number of basic gates' is read as the sum of Gate::num_basic_gates(); 'basic' = not CCZ/TOFF/ParityPhase, one or two distinct in-range qubits");
 
-    let (nq, nd, n_rand) = t.pick((6usize, 40usize, 3000usize), (6usize, 60usize, 250_000usize));
+    let (nq, nd, n_rand) = t.pick((6usize, 40usize, 9000usize), (6usize, 60usize, 250_000usize));
     par_cases("unitary-exact", n_rand, move |r, i| {
         let hc = gen_circuit(r, &CircParams::unitary(nq, nd, PhPool::Exact));
         check_circuit("unitary-exact", i, &hc);
@@ -671,7 +671,7 @@ pub fn run() {
     c.extra("single_gate_exhaustive", json!({"max_qubits": max_n, "space": total, "completed": !c.out_of_time()}));
 
     // concatenation
-    let (pq, pd, n_pairs) = t.pick((5usize, 20usize, 2000usize), (5usize, 30usize, 150_000usize));
+    let (pq, pd, n_pairs) = t.pick((5usize, 20usize, 6000usize), (5usize, 30usize, 150_000usize));
     par_cases("concat-pairs", n_pairs, move |r, i| {
         let pool = if r.chance(0.7) { PhPool::Exact } else { PhPool::Float };
         let n = 1 + r.below(pq);
